@@ -98,6 +98,11 @@ def make_net(rng, idx, profile):
         return netgen.pattern_net(rng, idx, profile.split(":", 1)[1], variant=idx)
     if profile.startswith("pattern:"):
         return netgen.pattern_net(rng, idx, profile.split(":", 1)[1])
+    if profile.startswith("hl2npu:"):
+        # families that aim at the branches of high_level_command_to_npu_op.py (harness/hl2npu_nets.py)
+        import hl2npu_nets
+
+        return hl2npu_nets.build(rng, idx, profile.split(":", 1)[1] or None)
     if profile == "weird":
         return netgen.weird_net(rng, idx)
     if profile == "act_extremes":
@@ -164,6 +169,8 @@ def _worker(job):
         opts += [e for e in getattr(net, "extra_opts", []) if e not in opts]      # options a generated case asks for
         if profile == "known_cascade_s3":
             opts = ["--accelerator-config", "ethos-u55-128", "--optimise", "Size"]
+        if profile.startswith("hl2npu:") and net.name.startswith("casc"):
+            opts = ["--accelerator-config", rng.choice(["ethos-u55-128", "ethos-u55-64", "ethos-u55-256", "ethos-u55-32"]), "--optimise", "Size"]
         if net.name.endswith(("casc_s2_valid",)) and rng.random() < 0.7:
             opts = ["--accelerator-config", rng.choice(["ethos-u55-128", "ethos-u55-64", "ethos-u55-256"]), "--optimise", "Size"]
         if net.name.endswith(("residual", "big_fm_u65")) and rng.random() < 0.6:
